@@ -351,6 +351,12 @@ def returnHandler (c : Cfg) (h : Hist) (s : St) : St :=
 def passes (c : Cfg) (h : Hist) (s : St) : Bool :=
   h.resp.ok || s.cur == .propagate || (s.cur == .payload && s.prog == .inProgress && c.continueOnFailedExfil)
 
+/-- The history item `_tap_return_handler(current_timestep)` looks at.  When there is none yet (`current_timestep >=
+len(history)`: the first execution slot is the first step of the episode) the handler answers "success" without
+reading anything — modelled by a synthetic successful do-nothing item.  `none` = `IndexError`. -/
+def lookBack (s : St) : Option Hist :=
+  if (s.hist.length : Int) ≤ s.curT then some { kind := .doNothing, resp := { ok := true } } else pyIndex s.hist s.curT
+
 /-- the branch that repeats the previously chosen action -/
 def failPath (c : Cfg) (s : St) (t : Int) (i : In) : St :=
   setNext c { (outcomeHandler c (setNext c s (t + c.frequency) i.d1)) with curT := t } (t + c.frequency) i.d2
@@ -361,7 +367,7 @@ def mainPath (c : Cfg) (s : St) (t : Int) (i : In) : St :=
 /-- `TAP001.get_action(obs, t)`: new state and returned action. -/
 def getAction (c : Cfg) (s : St) (t : Int) (i : In) : St × Act :=
   if ¬ executes s t then (s, Act.nothing) else
-  match pyIndex s.hist s.curT with
+  match lookBack s with
   | none => (s.raise, Act.nothing)
   | some h =>
     if passes c h (returnHandler c h s) then
@@ -451,7 +457,7 @@ structure Cfg where
   pPlanning : Prob
   pAccess : Prob
   pManipulation : Prob
-  pExploit : Prob               -- never read by the code (its guard compares a stage with a progress value)
+  pExploit : Prob
   startNode : Nat
   accountChanges : List Nat     -- `host` of each entry of MANIPULATION.account_changes
   acls : List Nat               -- `target_router` of each entry of EXPLOIT.malicious_acls
@@ -583,7 +589,7 @@ def manipulation (c : Cfg) (i : In) (s : St) : St :=
   if trial c.pManipulation i.u then manipFinish (manipAct c (manipBegin s))
   else failStage c { s with chosen := Act.nothing }
 
-/-- `_exploit` (its probability trial is dead code: the guard compares the stage with `KillChainStageProgress.PENDING`). -/
+/-- one action of `_exploit`: log in to the router, or add the next malicious ACL. -/
 def exploitAct (r : Nat) (s : St) : St :=
   if s.session ≠ some r then { s with sshTarget := some r, chosen := { kind := .remoteLogin, host := r } }
   else { s with chosen := { kind := .remoteAcl, host := r }, curAcl := s.curAcl + 1 }
@@ -591,13 +597,22 @@ def exploitAct (r : Nat) (s : St) : St :=
 def exploitFinish (s : St) : St :=
   if s.curAcl = s.numAcls then progress { s with curAcl := 0 } else s
 
-def exploit (c : Cfg) (s : St) : St :=
-  if s.cur ≠ .exploit then s else
+/-- the part of `_exploit` after the entry trial -/
+def exploitBody (c : Cfg) (s : St) : St :=
   match c.acls[s.curAcl]? with
   | none => s.raise
   | some r =>
     if s.creds.get r ≠ some true then s.raise
     else exploitFinish (exploitAct r { s with numAcls := c.acls.length })
+
+/-- "Perform the probability of success once upon entering the stage": first half of `_exploit`. -/
+def exploitEnter (s : St) : St := if s.prog = .pending then { s with prog := .inProgress } else s
+
+/-- `_exploit`: a trial with `EXPLOIT.probability` while the stage progress is PENDING, then one login / ACL action. -/
+def exploit (c : Cfg) (i : In) (s : St) : St :=
+  if s.cur ≠ .exploit then s else
+  if s.prog = .pending ∧ ¬ trial c.pExploit i.u then failStage c { s with chosen := Act.nothing }
+  else exploitBody c (exploitEnter s)
 
 /-- `_access`. -/
 def access (c : Cfg) (i : In) (s : St) : St :=
@@ -624,7 +639,7 @@ def tapStart (s : St) : St :=
   | none => s.raise
 
 def bodies (c : Cfg) (i : In) (s : St) : St :=
-  tapStart (reconnaissance (planning c i (access c i (manipulation c i (exploit c s)))))
+  tapStart (reconnaissance (planning c i (access c i (manipulation c i (exploit c i s)))))
 
 def executes (s : St) (t : Int) : Bool := ! (decide (t < s.nextExec) || s.concluded)
 
@@ -633,6 +648,11 @@ def returnHandler (c : Cfg) (h : Hist) (s : St) : St :=
 
 /-- after a failed response only PLANNING goes on to the stage methods -/
 def passes (h : Hist) (s : St) : Bool := h.resp.ok || s.cur == .planning
+
+/-- The history item `_tap_return_handler(current_timestep)` looks at; a synthetic successful item when there is none yet
+(see `Tap1.lookBack`). -/
+def lookBack (s : St) : Option Hist :=
+  if (s.hist.length : Int) ≤ s.curT then some { kind := .doNothing, resp := { ok := true } } else pyIndex s.hist s.curT
 
 def failPath (c : Cfg) (s : St) (t : Int) (i : In) : St :=
   outcomeHandler c (setNext c { s with curT := t } (t + c.frequency) i.d1)
@@ -649,7 +669,7 @@ def preGuardHandlers (c : Cfg) (s : St) : St := handleChangePw c (handleLogin s)
 /-- `get_action` after the pre-guard handlers. -/
 def getActionCore (c : Cfg) (s : St) (t : Int) (i : In) : St × Act :=
   if ¬ executes s t then (s, Act.nothing) else
-  match pyIndex s.hist s.curT with
+  match lookBack s with
   | none => (s.raise, Act.nothing)
   | some h =>
     if passes h (returnHandler c h s) then
